@@ -532,3 +532,160 @@ class SymStr:
 
     def __repr__(self):
         return 'SymStr(%s)' % ''.join(code2chr(c) if isinstance(c, int) else '?' for c in self.chars)
+
+
+# ------------------------------------------------------------------ str-compatible proxy
+_MARKERS = {}
+
+
+class SymText(str):
+    """A symbolic string that *is* a `str` (for code that needs real str
+    instances: dict keys, **kwargs, isinstance checks, f-strings).  The
+    underlying str content is a unique marker; every operation the targeted
+    code uses is overridden and delegates to a SymStr.  Operations that are
+    not overridden would silently act on the marker, so they raise instead."""
+
+    def __new__(cls, sym):
+        marker = '\x00S%d\x00' % (len(_MARKERS) + 1)
+        self = str.__new__(cls, marker)
+        self.sym = sym if isinstance(sym, SymStr) else SymStr.of(sym)
+        self.marker = marker
+        _MARKERS[marker] = self
+        return self
+
+    @staticmethod
+    def wrap(v):
+        if isinstance(v, SymStr):
+            if all(isinstance(c, int) for c in v.chars):
+                return ''.join(code2chr(c) for c in v.chars)
+            return SymText(v)
+        return v
+
+    @staticmethod
+    def unmark(s):
+        """the SymText a marker string stands for (or the string itself)"""
+        return _MARKERS.get(s, s)
+
+    def _o(self, o):
+        return o.sym if isinstance(o, SymText) else o
+
+    def __len__(self):
+        return len(self.sym)
+
+    def __bool__(self):
+        return len(self.sym) > 0
+
+    def __getitem__(self, i):
+        return SymText.wrap(self.sym[i])
+
+    def __iter__(self):
+        for c in self.sym:
+            yield SymText.wrap(c)
+
+    def __add__(self, o):
+        return SymText.wrap(self.sym + self._o(o))
+
+    def __radd__(self, o):
+        return SymText.wrap(SymStr.of(self._o(o)) + self.sym)
+
+    def __eq__(self, o):
+        if not isinstance(o, str):
+            return False
+        return bool(self.sym == self._o(o))
+
+    def __ne__(self, o):
+        return not self.__eq__(o)
+
+    def __hash__(self):
+        return hash(self.concretize_fork())
+
+    def __contains__(self, sub):
+        return self._o(sub) in self.sym
+
+    def startswith(self, p, *a):
+        if a or not isinstance(p, str) or isinstance(p, SymText):
+            raise Unsupported('startswith variant')
+        return self.sym.startswith(p)
+
+    def endswith(self, p, *a):
+        if a or not isinstance(p, str) or isinstance(p, SymText):
+            raise Unsupported('endswith variant')
+        return self.sym.endswith(p)
+
+    def replace(self, old, new, count=-1):
+        return SymText.wrap(self.sym.replace(old, new, count))
+
+    def strip(self, chars=None):
+        if chars is None:
+            chars = ' \t\n\r'
+        cs = _codes(chars)
+        ch = list(self.sym.chars)
+
+        def isin(c):
+            return Or(*[SymStr.ceq(c, k) for k in cs])
+        while ch and bool(SymBool(isin(ch[0]))):
+            ch.pop(0)
+        while ch and bool(SymBool(isin(ch[-1]))):
+            ch.pop()
+        return SymText.wrap(SymStr(ch))
+
+    def find(self, sub, start=0):
+        return self.sym.find(sub, start)
+
+    def index(self, sub, start=0):
+        return self.sym.index(sub, start)
+
+    def count(self, sub):
+        return self.sym.count(sub)
+
+    def concretize_fork(self, domain=None):
+        """pin every symbolic character by forking over the feasible values"""
+        c = cur()
+        out = []
+        for chv in self.sym.chars:
+            if isinstance(chv, int):
+                out.append(code2chr(chv))
+                continue
+            u = c.unique_value(chv)
+            if u is not None:
+                out.append(code2chr(u.as_long()))
+                continue
+            dom = domain or getattr(c, 'char_domain', None) or sorted(CODESET)
+            for k in dom:
+                if c.branch(chv == k):
+                    out.append(code2chr(k))
+                    break
+            else:
+                raise Abort()
+        return ''.join(out)
+
+    def concretize(self):
+        return self.sym.concretize()
+
+    def __str__(self):
+        return self
+
+    def __repr__(self):
+        return repr(self.sym)
+
+    def __format__(self, spec):
+        if spec:
+            raise Unsupported('format spec on a symbolic string')
+        return self.marker
+
+    def decode(self, model):
+        return self.sym.decode(model)
+
+
+def _unsupported(name):
+    def f(self, *a, **k):
+        raise Unsupported('str.%s on a symbolic string' % name)
+    return f
+
+
+for _n in ('lower', 'upper', 'split', 'rsplit', 'splitlines', 'join', 'partition', 'rpartition',
+           'lstrip', 'rstrip', 'isdigit', 'isalpha', 'isalnum', 'isidentifier', 'isspace', 'title',
+           'capitalize', 'casefold', 'center', 'ljust', 'rjust', 'zfill', 'encode', 'format',
+           'translate', 'expandtabs', 'swapcase', 'removeprefix', 'removesuffix', '__mod__',
+           '__mul__', '__rmul__', '__lt__', '__le__', '__gt__', '__ge__'):
+    setattr(SymText, _n, _unsupported(_n))
